@@ -239,3 +239,26 @@ Theorem C04_loft_fanconvex : forall (lower upper : list (pt2 R)) (h : R) ph, lof
   fanconv true (rev (enumerate lower)) -> fanconv false (enumerate upper) ->
   forall u v, (mcnt u v (snd ph) <= 1)%nat /\ mcnt u v (snd ph) = mcnt v u (snd ph).
 Proof. exact loft_fanconvex. Qed.
+
+(* moving a mesh rigidly keeps the signed volume its faces enclose (and, the faces being untouched, its closedness): translation
+   for every mesh whose directed edges come in opposite pairs -- every closed mesh --, the rotations about the coordinate axes
+   and every proper rotation for every mesh. So a built polyhedron that is closed and outward stays so under the transform
+   methods; in particular every edge cylinder of the Viewer, whatever direction the edge points in. *)
+From SCAD Require Import Base.Mat Base.Rot_proofs Geom.Rigid_volume Parts.Viewer_solid_proofs.
+Theorem C04_rigid_motions_keep_volume : forall (ph : @polyhedron R),
+  (forall v, in_range ph -> paired (snd ph) -> vol6 (fst (poly_translate ph v)) (snd (poly_translate ph v)) = vol6 (fst ph) (snd ph)) /\
+  (forall a, vol6 (fst (poly_rotate_x ph a)) (snd (poly_rotate_x ph a)) = vol6 (fst ph) (snd ph)) /\
+  (forall a, vol6 (fst (poly_rotate_y ph a)) (snd (poly_rotate_y ph a)) = vol6 (fst ph) (snd ph)) /\
+  (forall a, vol6 (fst (poly_rotate_z ph a)) (snd (poly_rotate_z ph a)) = vol6 (fst ph) (snd ph)).
+Proof. exact transforms_keep_volume. Qed.
+Theorem C04_proper_rotation_keeps_volume : forall (m : mt4 R) (vs : list (pt3 R)) (F : list (list Z)),
+  proper_rotation m -> vol6 (map (acts m) vs) F = vol6 vs F.
+Proof. exact vol6_proper_rotation. Qed.
+Theorem C04_viewer_edges_closed_outward :
+  (forall (r : R) (segments : Z) (s e : pt3 R) ph, s <> e -> r <> 0%R -> cylinder r (pt3_len (pt3_sub e s)) segments = Some ph ->
+     let moved := poly_translate (poly_apply_matrix ph (mt4_look_at_lh s e up_z)) s in
+     closed_exact (snd moved) /\ (vol6 (fst moved) (snd moved) < 0)%R) /\
+  (forall (r : R) (segments : Z) (s e : pt2 R) ph, s <> e -> r <> 0%R -> cylinder r (pt2_len (pt2_sub e s)) segments = Some ph ->
+     let moved := poly_translate (poly_apply_matrix ph (mt4_look_at_lh (pt2_as_pt3 s 0%R) (pt2_as_pt3 e 0%R) up_z)) (pt2_as_pt3 s 0%R) in
+     closed_exact (snd moved) /\ (vol6 (fst moved) (snd moved) < 0)%R).
+Proof. exact (conj edge_cylinder_closed_outward edge_cylinder2_closed_outward). Qed.
